@@ -31,6 +31,32 @@ T = {
  'C17-1': ('pending message type recorded for every non-continuation frame, control frames included', 'ping/pong between the fragments of a fragmented text message'),
  'C17-2': ('payload-complete test done on the slice instead of on the remaining length', 'empty masked frame with a read boundary inside its masking key'),
  'C18-1': ('splitLines splits only the new data and glues the held buffer onto the first piece', 'read boundary exactly between the CR and the LF of a CRLF'),
+ 'C12-1': ('Poll/EPoll: a hang-up bit alone (also together with POLLIN) is reported as _disconnect', 'peer sends bytes and resets before the server polls next: connect, disconnect, no read under Poll/EPoll'),
+ 'C12-2': ('Server._close no longer removes the socket from the deferred-close queue', 'peer stops reading, close(sock) is deferred, peer resets before the buffer drains'),
+ 'C13-1': ('the "parser error -> 400" block runs after every parser.execute(), not only before the headers are complete', 'chunked request with a read boundary between a chunk\'s data and its CRLF (stale INVALID_CHUNK errno)'),
+ 'C13-2': ('header-end search resumes from the scanned offset with an overlap of 2 instead of 3 bytes', 'read boundary between CR LF CR and the final LF of a header block'),
+ 'C14-1': ('the sock.fileno() >= 0 guard before HTTP._closing.add(sock) is dropped', 'peer disconnects exactly one event generation after the rejecting read: closed socket added to _closing and never removed'),
+ 'C14-2': ('the `sock in self._closing` guard of _on_read is consulted only when the connection has no parser', '505 (or exception-handler rejection) that keeps the parser + a further read before the close: second answer / rejected request dispatched'),
+ 'C19-1': ('call id is only consumed by events that await a result', 'no-result event followed by an awaited call on one connection while both are in flight'),
+ 'C19-2': ('load_value no longer filters protected keys out of a result packet\'s meta', 'raw peer answers a pending call with a result packet whose meta holds protected keys'),
+ 'C01-3': ('override resolution takes the flag of the nearest redefining class only', 'A.h, B(A).h override=True, C(B).h redefined without override: A.h attached again'),
+ 'C01-4': ('addHandler marks the cache dirty BEFORE filing the handler', 'second thread inside addHandler between flag and insert while the loop dispatches an event of that key (needs threads: outside C01\'s quantifier)'),
+ 'C02-3': ('handlers sorted per channel and the sorted runs chained', 'one event fired on two channels with handlers of interleaving priorities on different channels'),
+ 'C02-4': ('heap fast path with a _prioritized flag cleared at the end of dispatchEvents', 'handler fires non-zero-priority events in non-ascending order during a pass, next pass pops a non-heap'),
+ 'C03-3': ('dispatchEvents resets the sequence counter when the deque looks empty (unlocked check-then-act)', 'foreign fire between the check and the reset, second fire before the next batch: B overtakes A'),
+ 'C03-4': ('poller resume() skips the control-pipe write unless a _waiting flag is up; flag raised after time_left was copied', 'foreign fire exactly between the two adjacent lines in _generate_events'),
+ 'C04-3': ('exception arm of the dispatcher no longer overwrites the loop-wide `value`', 'raising handler whose predecessor returned a value (recorded twice) or a generator (counted twice)'),
+ 'C04-4': ('processTask isolates resumed generators against Exception only', 'generator handler raising a BaseException that is not an Exception when resumed'),
+ 'C05-3': ('_fire does not link an event that itself requests complete', 'complete-requesting event nested in the closure of another complete-requesting event'),
+ 'C05-4': ('cancelled descendant only decrements cause.effects instead of walking _effectDone', 'cancelled event is the last outstanding effect of its cause'),
+ 'C06-3': ('second sequential call() of a handler is started outside _step()', 'complete=True caller with two sequential calls whose later callee fires follow-up events that outlive it'),
+ 'C06-4': ('a handler failing in the step where it is resumed from call/wait gives back one waiting entry instead of two', 'nesting depth >= 2, failure (or uncaught TimeoutError) exactly on resumption'),
+ 'C07-3': ('_updateRoot skips children whose unregistration is pending', '_updateRoot over a subtree containing a pending component (register a root whose child is pending; parent then child unregistered before a tick)'),
+ 'C07-4': ('_do_prepare_unregister_complete marks the former root\'s cache instead of its own', 'five-step history: root fills cache, becomes child, handlers below change, detached, dispatches a cached key'),
+ 'C08-3': ('run() raises the stored exit code but never resets it', 'run ending with a code followed by a re-run stopped without one'),
+ 'C08-4': ('stop(code) on a non-running manager reaches the trailing raise SystemExit(code)', 'non-None code given to stop() on a manager that is not running / already stopping'),
+ 'C09-3': ('unregister_pending guard removed from the due branch', 'timer due during the two iterations its unregistration takes'),
+ 'C09-4': ('reset() writes expiry = now and then += interval', 'reset() from another thread with the loop testing the timer between the two assignments (or mktime raising)'),
  'C18-2': ('_check_args rewritten with regexes using $ (matches before a trailing newline)', 'command / prefix / argument ending in a single LF'),
 }
 rows = []
